@@ -45,3 +45,11 @@ Theorem C02_pruning_sound : forall (R : cring) (U : mat R) m keep,
   forall cols t, keep t = true -> slosK U m keep cols t = slos U m cols t.
 Proof. exact slosK_sound. Qed.
 Print Assumptions C02_pruning_sound.
+
+(* the order in which the input photons are injected (SLOS's path tree picks its own) is irrelevant *)
+From PV Require Import Proofs.PermOrderP.
+From Coq Require Import Permutation.
+Theorem C02_photon_order_irrelevant : forall (R : cring) (U : mat R) m cols cols',
+  Permutation cols cols' -> forall t, permS U m cols t = permS U m cols' t.
+Proof. exact permS_col_perm. Qed.
+Print Assumptions C02_photon_order_irrelevant.
